@@ -80,6 +80,22 @@ def rstr(rng, lo, hi, special=0.3, extra=()):
     return out
 
 
+def long_exec(rng):
+    """one group with one or two tests whose names, paths, messages and printed text are LONG (100-400 bytes, sparse specials landing at
+    many offsets); the group / package names stay short because they become the file name"""
+    def lstr(extra=()):
+        return rstr(rng, 100, 400, special=rng.choice([0.01, 0.03, 0.1]), extra=extra)
+    ex = [["start", hx(rstr(rng, 1, 6, extra=FNAME_ILLEGAL)), "", "", 0, "0"], ["group", hx(rstr(rng, 1, 12, extra=FNAME_ILLEGAL)), "", "", 0, ""]]
+    for _ in range(rng.choice([1, 2])):
+        tfile = lstr(extra=[47, 46])
+        ex.append(["test", hx(lstr()), hx(tfile), "", 12, "n"])
+        ex.append(["print", hx(rstr(rng, 50, 300, special=0.05)), "", "", 0, ""])
+        ex.append(["fail", hx(tfile if rng.random() < 0.5 else lstr()), "", hx(lstr()), 15, ""])
+        ex.append(["endtest", "", "", "", 0, ""])
+    ex += [["endgroup", "", "", "", 0, ""], ["end", "", "", "", 0, ""]]
+    return ex
+
+
 def random_exec(rng, max_groups, max_tests):
     pkg = [] if rng.random() < 0.4 else rstr(rng, 1, 8, extra=FNAME_ILLEGAL)
     ex = [["start", hx(pkg), "", "", 0, rng.choice(["0", "0", "1"])]]
@@ -223,6 +239,10 @@ def run(ctx):
     execs = [random_exec(ctx.rng, mg, mt) for _ in range(nexec)]
     ctx.sample({"source": "seeded random driver", "execution": ["\t".join(map(str, l)) for l in execs[0][:14]]})
     conform(ctx, "random", execs, run_harness, "Trace_JUnit", tcfg, pcfg, key_fn, tlc_timeout=1500)
+    # long values (see the same leg of C20: buffering / truncation defects need values longer than any the small alphabets produce)
+    lexecs = [long_exec(ctx.rng) for _ in range(6 if quick else 60)]
+    conform(ctx, "long-values", lexecs, run_harness, "Trace_JUnit", tcfg, pcfg, key_fn, tlc_timeout=1500)
+    ctx.evaluations += sum(len(e) for e in lexecs)
     ctx.evaluations += sum(len(e) for e in execs)
     for e in execs:
         if nontrivial(e):
